@@ -107,6 +107,22 @@ fn alphabet(n: usize, tier: Tier) -> Vec<Dev> {
             true
         }));
     }
+    // enum-level attributes that other derives read but that are NOT part of a spelling / message
+    for pfx in ["p/", "é {"] {
+        d.push(dev(format!("prefix={:?}", pfx), &["prefix"], move |s| {
+            s.prefix = Some(pfx.to_string());
+            true
+        }));
+    }
+    d.push(dev("prefix=\"p/\" + serialize_all=\"snake_case\"", &["prefix", "style"], |s| {
+        s.prefix = Some("p/".into());
+        s.serialize_all = Some("snake_case".into());
+        true
+    }));
+    d.push(dev("enum.ascii_case_insensitive", &["eaci"], |s| {
+        s.aci = true;
+        true
+    }));
     for i in 0..n {
         for (ln, l) in [("split", Layout::Split), ("reversed", Layout::Reversed)] {
             d.push(dev(format!("v{}.layout={}", i, ln), &[&format!("layout{}", i)], move |s| {
@@ -167,6 +183,8 @@ pub fn programs(tier: Tier) -> ProgramSet {
         long.serialize = (0..20).map(|j| format!("long{}", j)).collect();
         long.message = Some("m".repeat(300));
         spec.variants.push(long);
+        spec.prefix = Some("pre.".into());
+        spec.serialize_all = Some("SCREAMING_SNAKE_CASE".into());
         let source = render(&spec);
         out.push(Program { idx: 0, label: "SCALE: 37 variants with individual metadata; 24 doc lines, 20 serializations, 300-char message".into(), k: 1, spec, aux: json!(null), source });
     }
